@@ -3,6 +3,8 @@ package main
 import (
 	"bytes"
 	"fmt"
+	"github.com/itchio/savior"
+	"github.com/itchio/wharf/pwr"
 	"io"
 	"os"
 	"sort"
@@ -67,7 +69,12 @@ type wlResult struct {
 	out     *wvlib.Build
 }
 
+// c17SkSig, when set, makes applyWhitelist read the old build through a safekeeper opened on this signature stream.
 func applyWhitelist(patch []byte, oldDir, outDir string, wl map[int64]bool) (res wlResult) {
+	return applyWhitelistVia(patch, oldDir, outDir, wl, nil)
+}
+
+func applyWhitelistVia(patch []byte, oldDir, outDir string, wl map[int64]bool, skSig []byte) (res wlResult) {
 	defer func() {
 		if r := recover(); r != nil {
 			res.err = fmt.Errorf("PANIC %v", r)
@@ -78,7 +85,15 @@ func applyWhitelist(patch []byte, oldDir, outDir string, wl map[int64]bool) (res
 		res.err = err
 		return
 	}
-	rp := &recPool{Pool: fspool.New(p.GetTargetContainer(), oldDir)}
+	var inner lake.Pool = fspool.New(p.GetTargetContainer(), oldDir)
+	if skSig != nil {
+		inner, err = pwr.NewSafeKeeper(pwr.SafeKeeperParams{Inner: inner, Open: func() (savior.SeekSource, error) { return bytesSource(skSig), nil }})
+		if err != nil {
+			res.err = err
+			return
+		}
+	}
+	rp := &recPool{Pool: inner}
 	fb, err := bowl.NewFreshBowl(bowl.FreshBowlParams{SourceContainer: p.GetSourceContainer(), TargetContainer: p.GetTargetContainer(), TargetPool: rp, OutputFolder: outDir})
 	if err != nil {
 		res.err = err
@@ -172,6 +187,30 @@ func c17Check(env *Env, m *wvlib.Model, c *C17Case, patch []byte, od string, new
 				env.R.Violate("whitelisted-file-differs", fmt.Sprintf("file %d (%s)", i, f.Path), c)
 				break
 			}
+		}
+	}
+	// ---- the same whitelist with the old build read through the safekeeper (its verdict cache is warmed by
+	// whatever was read before: a whitelist changes what that is)
+	if c.Seed%2 == 0 && r.err == nil {
+		if sig, _, serr := oldSigBytes(od, Comp{"none", 0}); serr == nil {
+			out2 := base + "/outwl-sk"
+			r2 := applyWhitelistVia(patch, od, out2, wlArg, sig)
+			if r2.err != nil {
+				env.R.Violate("whitelist-apply-error:safekeeper", r2.err.Error(), c)
+			} else {
+				for i, f := range newC.Files {
+					if !inW(int64(i)) {
+						continue
+					}
+					got := r2.out.Find(f.Path)
+					if got == nil || !bytes.Equal(got.Data, nwFiles[i]) {
+						env.R.Violate("whitelisted-file-differs:safekeeper", fmt.Sprintf("file %d (%s) read through the safekeeper", i, f.Path), c)
+						break
+					}
+				}
+			}
+			os.RemoveAll(out2)
+			env.R.Count("whitelist-through-safekeeper", 1)
 		}
 	}
 	// ---- model
@@ -414,8 +453,72 @@ func c17ResumeBigSkipVariant(env *Env, c *C17Case, aBlocks, nEdits int) {
 	env.R.Eval(c.Seed^0x77^uint64(aBlocks), true)
 }
 
+// c17SafekeeperRotated: every whitelist of an OPTIMIZED patch whose second file is the first one rotated by an odd
+// multiple of 32 KiB (its bsdiff series enters blocks of the old file in their second half), applied through the
+// safekeeper: whether a block's verdict is already cached when the series gets there depends on the whitelist.
+func c17SafekeeperRotated(env *Env, c *C17Case) {
+	base := env.Scratch.Sub("skr")
+	defer os.RemoveAll(base)
+	r := wvlib.NewRng(c.Seed)
+	a := r.Bytes(4 * wvlib.BS)
+	rot := (1 + 2*r.Intn(3)) * wvlib.BS / 2
+	a2 := append([]byte(nil), a...)
+	a2[100] ^= 1
+	a2[3*wvlib.BS+7] ^= 1
+	b := append(append([]byte(nil), a[rot:]...), a[:rot]...)
+	old := &wvlib.Build{Entries: []wvlib.BEntry{{Path: "a.bin", Kind: 'f', Data: a}}}
+	nw := &wvlib.Build{Entries: []wvlib.BEntry{{Path: "a.bin", Kind: 'f', Data: a2}, {Path: "b.bin", Kind: 'f', Data: b}, {Path: "e.txt", Kind: 'f'}}}
+	od, nd := base+"/old", base+"/new"
+	old.Write(od)
+	nw.Write(nd)
+	res, err := diffDirs(od, nd, Comp{"none", 0}, nil)
+	if err != nil {
+		return
+	}
+	o := optimizeReal(res.Patch, od, nd, &C07Case{Force: true, OutComp: Comp{"none", 0}, Partitions: 2}, res)
+	if o.err != "" {
+		return
+	}
+	sig, _, serr := oldSigBytes(od, Comp{"none", 0})
+	if serr != nil {
+		return
+	}
+	for _, patch := range [][]byte{res.Patch, o.patch} {
+		for mask := 0; mask < 8; mask++ {
+			wl := map[int64]bool{}
+			for i := 0; i < 3; i++ {
+				if mask&(1<<i) != 0 {
+					wl[int64(i)] = true
+				}
+			}
+			out := fmt.Sprintf("%s/out%d", base, mask)
+			r2 := applyWhitelistVia(patch, od, out, wl, sig)
+			if r2.err != nil {
+				env.R.Violate("whitelist-apply-error:safekeeper", fmt.Sprintf("whitelist %v: %v", wl, r2.err), c)
+			} else {
+				for i, e := range nw.Files() {
+					if !wl[int64(i)] {
+						continue
+					}
+					if got := r2.out.Find(e.Path); got == nil || !bytes.Equal(got.Data, e.Data) {
+						env.R.Violate("whitelisted-file-differs:safekeeper", fmt.Sprintf("whitelist mask %03b, rotation %d: %s differs from the new build", mask, rot, e.Path), c)
+						break
+					}
+				}
+			}
+			os.RemoveAll(out)
+			env.R.Count("safekeeper-rotated-subsets", 1)
+		}
+	}
+	env.R.Eval(c.Seed^0x5c, true)
+}
+
 // c17Synthetic: a skipped bsdiff series whose target is old file #2049 (needs >= 2050 old files).
 func c17Synthetic(env *Env, m *wvlib.Model, c *C17Case) {
+	if c.Synthetic == "safekeeper-rotated" {
+		c17SafekeeperRotated(env, c)
+		return
+	}
 	if c.Synthetic == "whitelist-resume-big-skip" {
 		c17ResumeBigSkip(env, c)
 		return
@@ -500,7 +603,7 @@ func runC17(env *Env) {
 		n = 600
 	}
 	rng := wvlib.NewRng(env.Seed)
-	cases := []*C17Case{{Synthetic: "bsdiff-target-2049", PairCase: PairCase{Seed: 1}}, {Synthetic: "whitelist-resume-big-skip", PairCase: PairCase{Seed: rng.Next()}}}
+	cases := []*C17Case{{Synthetic: "bsdiff-target-2049", PairCase: PairCase{Seed: 1}}, {Synthetic: "whitelist-resume-big-skip", PairCase: PairCase{Seed: rng.Next()}}, {Synthetic: "safekeeper-rotated", PairCase: PairCase{Seed: rng.Next()}}, {Synthetic: "safekeeper-rotated", PairCase: PairCase{Seed: rng.Next()}}}
 	comps := []Comp{{"none", 0}, {"gzip", 1}, {"brotli", 1}}
 	for i := 0; i < n; i++ {
 		cases = append(cases, &C17Case{PairCase: PairCase{Seed: rng.Next(), Opts: wvlib.PairOpts{MaxFiles: 5, SmallOnly: true, Symlinks: true, Triple: i%6 == 0}, Comp: comps[i%3]}, Optimized: i%2 == 1})
